@@ -34,7 +34,7 @@ const (
 
 type inventory struct {
 	Sends, Recvs, Gos, Selects, SelectDefaults int
-	SyncImports, TimeNow, MathRand, CryptoRand, DryRandom, MapRanges, KeysOrder int
+	SyncImports, TimeNow, MathRand, CryptoRand, DryRandom, MapRanges, KeysOrder, DialSeam int
 	Unhooked []string
 	Files    []string
 }
@@ -113,6 +113,9 @@ func main() {
 			return nil
 		}))
 	}
+	if inv.DialSeam != 1 {
+		fail("dial seam: expected exactly one transport.NewTCP(cfg), found %d", inv.DialSeam)
+	}
 	b, _ := json.MarshalIndent(map[string]any{"Replace": replace}, "", " ")
 	must(os.WriteFile(filepath.Join(*out, "overlay.json"), b, 0o644))
 	ib, _ := json.MarshalIndent(inv, "", " ")
@@ -120,7 +123,7 @@ func main() {
 }
 
 func mayNeedRewrite(src []byte) bool {
-	for _, k := range []string{"<-", "go ", "select", `"sync"`, "time.Now", "time.Sleep", `"math/rand"`, `"crypto/rand"`, "RandomBytes", "range map[", "Keys()"} {
+	for _, k := range []string{"func NewTCP(", "<-", "go ", "select", `"sync"`, "time.Now", "time.Sleep", `"math/rand"`, `"crypto/rand"`, "RandomBytes", "range map[", "Keys()"} {
 		if bytes.Contains(src, []byte(k)) {
 			return true
 		}
@@ -247,6 +250,19 @@ func rewriteFile(path string, src []byte, rel string) ([]byte, bool, error) {
 					r.wrapKeysReturns(fd.Body)
 				}
 			}
+		}
+		if fd.Name.Name == "NewTCP" && fd.Recv == nil && f.Name.Name == "transport" && len(fd.Type.Params.List) == 1 && len(fd.Type.Params.List[0].Names) == 1 {
+			// dial seam: if VerifDial != nil { return VerifDial(cfg) }
+			arg := ast.NewIdent(fd.Type.Params.List[0].Names[0].Name)
+			seam := &ast.IfStmt{
+				Cond: &ast.BinaryExpr{X: ast.NewIdent("VerifDial"), Op: token.NEQ, Y: ast.NewIdent("nil")},
+				Body: &ast.BlockStmt{List: []ast.Stmt{&ast.ReturnStmt{Results: []ast.Expr{
+					&ast.CallExpr{Fun: ast.NewIdent("VerifDial"), Args: []ast.Expr{arg}}}}}},
+			}
+			r.done[seam] = true
+			fd.Body.List = append([]ast.Stmt{seam}, fd.Body.List...)
+			r.changed = true
+			inv.DialSeam++
 		}
 		r.block(fd.Body)
 	}
